@@ -65,7 +65,10 @@ def case(draw):
     tb2 = draw(st.sampled_from([ts * m for m in mult]))
     fb2 = draw(st.sampled_from([fs * m for m in mult]))
     dt = ts * draw(st.integers(1, 256)) / 16
-    return {"g1": g1, "g2": g2, "tb": tb, "fb": fb, "tb2": tb2, "fb2": fb2, "dt": dt, "placement": placement}
+    def as_int(x):
+        return int(x) if (float(x).is_integer() and draw(st.booleans())) else x
+
+    return {"g1": g1, "g2": g2, "tb": as_int(tb), "fb": as_int(fb), "tb2": as_int(tb2), "fb2": as_int(fb2), "dt": dt, "placement": placement}
 
 
 def buffered_time_extent(kind, b, tb, theta=1.0):
